@@ -3,6 +3,7 @@ package vsim
 import (
 	"context"
 	"fmt"
+	"net"
 	"time"
 
 	tchannel "github.com/uber/tchannel-go"
@@ -63,7 +64,13 @@ func famRetry(w *World) {
 	// host:port through the channel on odd attempts, or by selecting from the list itself
 	// and calling the peer
 	const hows = 3
-	total := len(retryPolicies) * ecCount * len(retryMaxAttempts) * len(retrySuccessAt) * 2 * hows
+	base := len(retryPolicies) * ecCount * len(retryMaxAttempts) * len(retrySuccessAt) * 2 * hows
+	// a second block: the OVERALL deadline (1 s) passes while the first attempt is still
+	// busy failing (the function returns its error late), no attempt ever succeeds. The
+	// documented loop does not look at the deadline: it goes on while the policy allows,
+	// every later attempt failing at once with whatever an expired context gives it.
+	lateBlock := len(retryPolicies) * ecCount * len(retryMaxAttempts) * 2 * hows
+	total := base + lateBlock
 	if w.cfg.Case == -2 {
 		w.Probes["enum.cases"] = total
 		return
@@ -73,12 +80,19 @@ func famRetry(w *World) {
 		c = scn(total)
 	}
 	x := c
+	late := c >= base
+	if late {
+		x = c - base
+	}
 	how := x % hows
 	x /= hows
 	perAttempt := x%2 == 1
 	x /= 2
-	succAt := retrySuccessAt[x%len(retrySuccessAt)]
-	x /= len(retrySuccessAt)
+	succAt := 0
+	if !late {
+		succAt = retrySuccessAt[x%len(retrySuccessAt)]
+		x /= len(retrySuccessAt)
+	}
 	maxA := retryMaxAttempts[x%len(retryMaxAttempts)]
 	x /= len(retryMaxAttempts)
 	class := x % ecCount
@@ -90,7 +104,7 @@ func famRetry(w *World) {
 	npeers := 1 + (c/hows)%3
 	w.drawSchedule(false)
 	w.linkDefaults()
-	w.describe("retry policy=%s class=%s maxAttempts=%d successAt=%d perAttemptTimeout=%v peers=%d how=%d", retryPolicyNames[policy], ecNames[class], maxA, succAt, perAttempt, npeers, how)
+	w.describe("retry policy=%s class=%s maxAttempts=%d successAt=%d perAttemptTimeout=%v peers=%d how=%d overall-deadline-passes-in-attempt-1=%v", retryPolicyNames[policy], ecNames[class], maxA, succAt, perAttempt, npeers, how, late)
 	w.eval("C17.case")
 
 	attempts := 0 // attempts that reached a server
@@ -160,8 +174,13 @@ func famRetry(w *World) {
 	if perAttempt {
 		opts.TimeoutPerAttempt = 300 * time.Millisecond
 	}
-	ctx, cancel := tchannel.NewContextBuilder(20 * time.Second).SetRetryOptions(opts).Build()
+	overall := 20 * time.Second
+	if late {
+		overall = time.Second
+	}
+	ctx, cancel := tchannel.NewContextBuilder(overall).SetRetryOptions(opts).Build()
 	defer cancel()
+	overallEnd := time.Now().Add(overall)
 	type seen struct {
 		attempt int
 		prev    []string
@@ -179,6 +198,9 @@ func famRetry(w *World) {
 			s.err = errTimeout
 			calls = append(calls, s)
 			w.event("attempt", "#%d returns %v (net.Error, Timeout()=true)", s.attempt, errTimeout)
+			if late && rs.Attempt == 1 {
+				sleep(time.Until(overallEnd) + 50*time.Millisecond)
+			}
 			return errTimeout
 		}
 		switch {
@@ -218,9 +240,19 @@ func famRetry(w *World) {
 		s.err = err
 		calls = append(calls, s)
 		w.event("attempt", "#%d peer=%s prev=%v err=%s", s.attempt, s.peer, s.prev, errStr(err))
+		if late && rs.Attempt == 1 && err != nil {
+			// the function is slow to come back with its error: the overall deadline passes
+			sleep(time.Until(overallEnd) + 50*time.Millisecond)
+			w.probe("C17.overall-deadline-passed-before-first-error-returned")
+		}
 		return err
 	})
 	w.probe("ops.done")
+	if late {
+		w.retryLateVerdict(policy, class, maxA, perAttempt, npeers, err, len(calls), func(i int) (int, error) { return calls[i].attempt, calls[i].err })
+		w.quiesce(2*time.Second, true)
+		return
+	}
 
 	// ---- the reference ----
 	budget := maxA
@@ -286,4 +318,73 @@ func famRetry(w *World) {
 	}
 	w.quiesce(2*time.Second, true)
 	_ = servers
+}
+
+// specClassOf classifies an attempt's error for the documented table, from the
+// error value itself (code of a system error, net.Error, the context errors).
+func specClassOf(err error) int {
+	if se, ok := err.(tchannel.SystemError); ok {
+		switch se.Code() {
+		case tchannel.ErrCodeBusy:
+			return ecBusy
+		case tchannel.ErrCodeDeclined:
+			return ecDeclined
+		case tchannel.ErrCodeBadRequest:
+			return ecBadRequest
+		case tchannel.ErrCodeNetwork:
+			return ecNetworkCut
+		case tchannel.ErrCodeUnexpected:
+			return ecUnexpected
+		case tchannel.ErrCodeTimeout:
+			return ecTimeoutCode
+		case tchannel.ErrCodeCancelled:
+			return ecCancelledCode
+		case tchannel.ErrCodeProtocol:
+			return ecProtocol
+		}
+		return ecOther
+	}
+	if _, ok := err.(net.Error); ok {
+		return ecNetworkCut
+	}
+	return ecOther
+}
+
+// retryLateVerdict judges a run of the second block by its trace: after every
+// attempt but the last the policy must have allowed a retry, the last one must
+// be the budget's last or carry an error the policy does not retry, and the
+// returned error is the last attempt's.
+func (w *World) retryLateVerdict(policy, class, maxA int, perAttempt bool, npeers int, err error, n int, at func(i int) (int, error)) {
+	budget := maxA
+	if budget == 0 {
+		budget = 5
+	}
+	desc := fmt.Sprintf("policy=%s class=%s MaxAttempts=%d never succeeds, perAttempt=%v peers=%d, overall deadline passes before attempt 1 returns its error", retryPolicyNames[policy], ecNames[class], maxA, perAttempt, npeers)
+	if n == 0 || n > budget {
+		w.violate("C17", "attempt-count", "%s: the function ran %d times with a budget of %d", desc, n, budget)
+		return
+	}
+	for i := 0; i < n; i++ {
+		num, e := at(i)
+		if num != i+1 {
+			w.violate("C17", "attempt-number", "%s: invocation %d saw Attempt=%d", desc, i+1, num)
+		}
+		if e == nil {
+			w.violate("C17", "harness", "%s: attempt %d succeeded", desc, i+1)
+			return
+		}
+		can := specCanRetry(policy, specClassOf(e))
+		if i < n-1 && !can {
+			w.violate("C17", "attempt-count", "%s: attempt %d failed with %s, which the policy does not retry, yet attempt %d was made", desc, i+1, errStr(e), i+2)
+		}
+		if i == n-1 && can && n < budget {
+			w.violate("C17", "attempt-count", "%s: attempt %d of %d failed with %s, which the policy retries, yet no further attempt was made (RunWithRetry returned %s)", desc, i+1, budget, errStr(e), errStr(err))
+		}
+	}
+	if _, last := at(n - 1); err != last {
+		w.violate("C17", "not-last-error", "%s: RunWithRetry returned %s, the last attempt failed with %s", desc, errStr(err), errStr(last))
+	}
+	if err == nil {
+		w.violate("C17", "final-result", "%s: RunWithRetry returned success", desc)
+	}
 }
